@@ -170,6 +170,10 @@ def make_config(prop, seed, tier):
         cfg["preseed"].append({"path": "/user/contacts/barebook/", "backend": "bare", "kind": "addressbook"})
     if prop == "C15" and r.random() < 0.5:
         cfg["preseed"].append({"path": "/user/contacts/cfgbook/", "backend": "gitcfg", "kind": "addressbook"})
+    if prop in ("C01", "C08", "C07") and r.random() < 0.25:
+        # two `git init --bare` directories without any commit yet
+        cfg["preseed"].append({"path": "/user/calendars/e0/", "backend": "bare-empty", "kind": "plain"})
+        cfg["preseed"].append({"path": "/user/calendars/e1/", "backend": "bare-empty", "kind": "plain"})
     return cfg
 
 
@@ -261,7 +265,7 @@ class HistRun:
             w.srv.stop()
             for ps in self.cfg["preseed"]:
                 preseed_collection(self.arena.root, ps["path"], ps["backend"], STORE_KIND[ps["kind"]])
-                m.colls[ps["path"]] = MColl(ps["path"], ps["kind"], ps["backend"])
+                m.colls[ps["path"]] = MColl(ps["path"], ps["kind"], "bare" if ps["backend"] == "bare-empty" else ps["backend"])
             FS.active = True
             w.srv.start()
         self.audit(initial=True)
